@@ -53,6 +53,12 @@ def allSome : List (Option Bytes) → Option (List Bytes)
   | none :: _ => none
   | some p :: r => (allSome r).map (p :: ·)
 
+/-- the packets of a sequence of `Write(data)` calls, each with the padding lengths of the padding
+    packets appended to it (in every IAT mode the payload packets of a `Write` precede its padding
+    packets; how the frames are grouped into `Conn.Write` calls does not matter to the receiver) -/
+def txAll (ws : List (Bytes × List Nat)) : List (Option Bytes) :=
+  ws.flatMap (fun w => txPackets w.1 w.2)
+
 /-- the honest wire stream of a packet list from frame index 0 -/
 def wire (c : Crypto) (pkts : List Bytes) : Bytes := encodeAll c 0 pkts
 
